@@ -31,7 +31,9 @@ VIEW_FNS = re.compile(
 BITVEC_INDEX = re.compile(
     r"^bitvec::(slice|vec|array)::ops::<impl std::ops::Index(Mut)?<std::ops::(Range|RangeTo|RangeFrom|RangeFull|RangeInclusive|RangeToInclusive)(<usize>)?> for bitvec::(slice::BitSlice|vec::BitVec|array::BitArray)(<[^>]*>)?>::index(_mut)?$")
 SEQ_INDEX = re.compile(
-    r"^seq::index::<impl std::ops::Index<(std::ops::(Range|RangeTo|RangeFrom|RangeFull|RangeInclusive|RangeToInclusive)(<usize>)?|usize)> for seq::slice::SeqSlice<A>>::index$")
+    r"^seq::index::<impl std::ops::Index<(std::ops::(Range|RangeTo|RangeFrom|RangeFull|RangeInclusive|RangeToInclusive)(<usize>)?|usize)> for seq::slice::SeqSlice<[^<>]*>>::index$")
+SEQ_LEN = re.compile(r"^seq::slice::SeqSlice::<[^<>]*>::len$")
+SEQ_EMPTY = re.compile(r"^seq::slice::SeqSlice::<[^<>]*>::is_empty$")
 BITLEN = re.compile(r"^bitvec::(slice|vec)::api::<impl bitvec::(slice::BitSlice|vec::BitVec)(<[^>]*>)?>::len$")
 BV_DEREF = re.compile(r"^bitvec::vec::ops::<impl std::ops::Deref(Mut)? for bitvec::vec::BitVec(<[^>]*>)?>::deref(_mut)?$")
 BAN_ASREF = re.compile(r"^<<S as kmer::sealed::KmerStorage>::BaN as std::convert::As(Mut|Ref)<bitvec::slice::BitSlice>>::as_(mut|ref)$")
@@ -115,7 +117,7 @@ class Norm:
             return t
         if k == "param":
             return ("P", t[1])
-        if k in ("int", "cg", "str", "unit", "fn", "zst", "constref", "uninit", "unk"):
+        if k in ("int", "cg", "str", "unit", "fn", "zst", "constref", "uninit", "unk", "static", "mem"):
             return t
         if k == "loopvar":
             return ("loopvar", t[1], t[2])
@@ -176,7 +178,7 @@ class Norm:
                 return args[0]
             if BITLEN.match(key):
                 return ("bitlen", args[0])
-            if key == "seq::slice::SeqSlice::<A>::len":
+            if SEQ_LEN.match(key):
                 x = args[0]
                 x = x[1] if x[0] == "seqview" else x
                 if x[0] == "sslice" and x[3] is not None:
@@ -185,7 +187,7 @@ class Norm:
                 if x[0] == "sym1":
                     return I(1, "usize")
                 return ("L", x)
-            if key == "seq::slice::SeqSlice::<A>::is_empty":
+            if SEQ_EMPTY.match(key):
                 return ("isempty", args[0])
             m = BITVEC_INDEX.match(key)
             if m:
